@@ -141,6 +141,17 @@ M = [
   '''                        T[a](s, s1) += p;
                         R(s, a)     += p * r;''', '''                        T[a](s, s1) += p;
                         R(s, a)     += r;'''),
+ # ---- round 4: the repaired sparse validator (fixes/C05-2, repo 54353bc)
+ ('N14 isProbability(SparseMatrix2D) loses its sign loop (row sums only: [1+4e-7, -4e-7] and [1.25, -0.25] pass)', 'src/Utils/Probability.cpp',
+  '''        for (int k = 0; k < in.outerSize(); ++k)
+            for (SparseMatrix2D::InnerIterator it(in, k); it; ++it)
+                if (it.value() < 0.0) return false;
+
+''', ''),
+ ('N15 the sign loop of isProbability(SparseMatrix2D) skips the first stored value of every row', 'src/Utils/Probability.cpp',
+  '''            for (SparseMatrix2D::InnerIterator it(in, k); it; ++it)
+                if (it.value() < 0.0) return false;''', '''            for (SparseMatrix2D::InnerIterator it(in, k); it; ++it)
+                if (it.value() < 0.0 && it.col() != SparseMatrix2D::InnerIterator(in, k).col()) return false;'''),
 ]
 UT = '--ut' in sys.argv
 LENIENT = '--lenient' in sys.argv      # skip the textual tie (AITB.Gen.C06Sites) to see what the behavioural clauses catch alone
